@@ -247,15 +247,19 @@ def run_infoonly(items):
                 continue
             # stream scan in metadata-only mode: bytes by declared total length
             stream = b'\r\n' + c + b'xx' + b + b'7777'
-            with contextlib.redirect_stderr(io.StringIO()):
-                try:
-                    spans = [x.serialized_bytes for x in generate_bufr_message(dec, stream, info_only=True)]
-                except Exception as e:
-                    p.violation('scan-raises:' + type(e).__name__, case, repr(e))
-                    continue
-            if spans != [c, b]:
-                p.violation('scan-spans', case, 'metadata-only scan gave spans of %r bytes, expected %r'
-                            % ([len(x) for x in spans], [len(c), len(b)]))
+            # without a filter expression and with filter expressions (over metadata) that accept every message / only
+            # messages of this edition: the bytes of a delivered message do not depend on why it was delivered
+            for fexpr in (None, '${%edition} > 0', '${%edition} == ' + str(spec.edition) + ' and ${%n_subsets} >= 0'):
+                with contextlib.redirect_stderr(io.StringIO()):
+                    try:
+                        spans = [x.serialized_bytes for x in generate_bufr_message(dec, stream, info_only=True, filter_expr=fexpr)]
+                    except Exception as e:
+                        p.violation('scan-raises:' + type(e).__name__ + ('|filter' if fexpr else ''), case, repr(e))
+                        break
+                if spans != [c, b]:
+                    p.violation('scan-spans' + ('|filter' if fexpr else ''), case, 'metadata-only scan%s gave spans of %r bytes, '
+                                'expected %r' % (' with filter %r' % fexpr if fexpr else '', [len(x) for x in spans], [len(c), len(b)]))
+                    break
         p.sample({'message': mname, 'corruptions': len(cases)})
     return p
 
